@@ -306,8 +306,8 @@ CLAIMED["C01"] = {
 # level text of each property so that MANIFEST.json names every rule family a check runs (details: DESIGN.md §9.1, §9.2)
 ADDED = {
     "C01": "Also: every handler that looks at an operand copies it out of a field/element view first (view-read).",
-    "C02": "Also: no run-time site builds a boxed present optional (including Option::map(Box::new) payloads); handlers copy operands out of views; a class never collects two members of one name (member-unique).",
-    "C03": "Also: a block scope never starts from the return status another arm ended with (return-scope fresh-status); function types compare their parameters with signature_check set (signature-invariance).",
+    "C02": "Also: no run-time site builds a boxed present optional (including Option::map(Box::new) payloads); handlers copy operands out of views; a class never collects two members of one name (member-unique); `x op= y` is accepted only when the result type can be stored back (opassign-result); value-owing function scopes check their exit (return-required).",
+    "C03": "Also: a block scope never starts from the return status another arm ended with (return-scope fresh-status); function types compare their parameters with signature_check set (signature-invariance); a call is accepted only after every argument node was walked (arity); every value-into-slot check refuses `T?` for `T` and accepts `T` for `T?` (optional-direction, eq_complex evaluated in the site's configuration).",
     "C04": "Also: the arguments of a trace/log call borrow nothing that `run` holds; the index unit of string built-ins (index-unit).",
     "C05": "Also: every left shift of a program integer is shifted back and compared (exact-shift); `%` and `/` are evaluated at (MIN, -1) of each signed "
            "kind (extremes: `%` must yield 0, `/` must stop); `< <= > >=` evaluated on all kind pairs at three operand pairs (compare-values).",
@@ -334,7 +334,7 @@ NOT_APPLICABLE = {
 }
 
 # no hook commits exist; the only commits made to /repo are unguarded "fix:" repairs of genuine defects (see known_findings.json)
-FIX_COMMITS = ["e2ae2a9", "cb2d1e0", "e7575e5", "7bc2f7d", "0af4d83", "e4a4c00", "58e025f", "686179e", "7296d9a", "fa4b68b", "379557f", "4b30646", "0420930", "3aba53e", "2f2a1a1", "40a185d", "926b1f7", "1bc1139", "80aa30b", "cb4346c", "34ccc50", "c46bbfb", "52e39f3", "113558c", "2f9df7c", "3049d27", "8c4d891", "b57e9f6", "06f5ab2", "b6686d7", "5bdb4bc", "21f2ccc", "f629b30", "fbc7074", "28b2626", "6155775", "1ab99d9", "cee19c4", "53a1bd0", "b6cca17", "c78cdc8", "9f6e522", "c0bdc04", "e618867", "2994d64", "3ba155b", "7462d6f", "86d0f93", "a29d87c", "92ac63d", "936263a", "3d2596a", "c5627c9", "94a3f9f", "18b62d2", "54a8656", "76c07fb", "ae83586", "674afb7", "c131531", "e64b68f", "2b24aaa", "2f32c8c", "bb82fe1", "cd2cb2d", "6eb0e25"]
+FIX_COMMITS = ["e2ae2a9", "cb2d1e0", "e7575e5", "7bc2f7d", "0af4d83", "e4a4c00", "58e025f", "686179e", "7296d9a", "fa4b68b", "379557f", "4b30646", "0420930", "3aba53e", "2f2a1a1", "40a185d", "926b1f7", "1bc1139", "80aa30b", "cb4346c", "34ccc50", "c46bbfb", "52e39f3", "113558c", "2f9df7c", "3049d27", "8c4d891", "b57e9f6", "06f5ab2", "b6686d7", "5bdb4bc", "21f2ccc", "f629b30", "fbc7074", "28b2626", "6155775", "1ab99d9", "cee19c4", "53a1bd0", "b6cca17", "c78cdc8", "9f6e522", "c0bdc04", "e618867", "2994d64", "3ba155b", "7462d6f", "86d0f93", "a29d87c", "92ac63d", "936263a", "3d2596a", "c5627c9", "94a3f9f", "18b62d2", "54a8656", "76c07fb", "ae83586", "674afb7", "c131531", "e64b68f", "2b24aaa", "2f32c8c", "bb82fe1", "cd2cb2d", "6eb0e25", "a54d8b4", "cc2025b", "f4347ee", "e715cf0"]
 
 PENDING = "check not built yet in this round (framework under construction); planned per DESIGN.md §5/§8"
 
